@@ -285,12 +285,15 @@ void small_free_memory_list::insert(void* mem, std::size_t size) noexcept
 
 std::size_t small_free_memory_list::usable_size(std::size_t size) const noexcept
 {
+    // must agree with insert(): chunks are separated by an alignment buffer, the remainder forms a smaller chunk
     auto total_chunk_size = chunk_memory_offset + node_size_ * chunk_max_nodes;
-    auto no_chunks        = size / total_chunk_size;
-    auto remainder        = size % total_chunk_size;
+    auto align_buffer     = align_offset(total_chunk_size, alignof(chunk));
+    auto no_chunks        = size / (total_chunk_size + align_buffer);
+    auto remainder        = size % (total_chunk_size + align_buffer);
 
-    return no_chunks * chunk_max_nodes * node_size_
-           + (remainder > chunk_memory_offset ? remainder - chunk_memory_offset : 0u);
+    auto remainder_nodes =
+        remainder > chunk_memory_offset ? (remainder - chunk_memory_offset) / node_size_ : 0u;
+    return (no_chunks * chunk_max_nodes + remainder_nodes) * node_size_;
 }
 
 void* small_free_memory_list::allocate() noexcept
